@@ -19,7 +19,7 @@ def load_known():
     return {"known": [], "fixed": []}
 
 
-def coq_stage(pid, prop, ev, problems):
+def coq_stage(pid, prop, ev, problems, tier="quick"):
     """translate + make the property's closure + pins/assumptions. Fills ev['coverage']."""
     cov = ev["coverage"]
     ok_t, misses, trep = C.translate()
@@ -65,6 +65,15 @@ def coq_stage(pid, prop, ev, problems):
     bad = [l for l in out.splitlines() if l.strip() and not re.search(r"\(\*.*(Admitted|admit|Axiom|Parameter).*\*\)", l)]
     if bad:
         problems.append({"kind": "proof", "what": "forbidden construct in development", "detail": bad[:5]})
+    # thorough tier: re-check the compiled closure with the independent checker and list its axioms
+    if tier == "thorough" and thms and not any(p["kind"] == "proof" for p in problems):
+        t0 = time.time()
+        rc, out = C.run(["coqchk", "-o", "-silent", "-Q", "theories", "RsdnsModel", "RsdnsModel.Properties.%s" % pid], cwd=C.COQ, timeout=1800)
+        m = re.search(r"\* Axioms:\s*(.*?)\n\s*\n", out, re.S)
+        ax = m.group(1).strip() if m else "?"
+        cov["coqchk"] = {"exit": rc, "axioms": ax[:400], "seconds": round(time.time() - t0, 1)}
+        if rc != 0 or ax != "<none>":
+            problems.append({"kind": "proof", "what": "coqchk -o on Properties/%s: exit %d, axioms: %s" % (pid, rc, ax[:200]), "detail": out[-400:]})
     cov["obligations"] = obligations
     cov["discharged"] = discharged
     cov["theorems"] = thms
@@ -98,7 +107,7 @@ def main():
     failures = []   # concrete inputs on which the property fails on the implementation
     known_hits = []
     with C.Lock():
-        coq_stage(pid, prop, ev, problems)
+        coq_stage(pid, prop, ev, problems, tier)
         okd, dmsg = C.build_driver()
         if not okd:
             problems.append({"kind": "tie", "what": "model driver could not be rebuilt (%s); using last good driver" % dmsg[:300]})
